@@ -118,7 +118,70 @@ def extract():
 
     t.update(extract_ast())
     t.update(extract_cli_behaviour())
+    t.update(extract_regex_behaviour())
     return t
+
+
+def extract_regex_behaviour():
+    """How match() / search() use the regular-expression engine, obtained by EXECUTING them with the engine's entry
+    points replaced by recorders (an earlier syntactic table of the call sites in match.py / search.py broke, with no
+    failing input to show, when a behaviour-preserving refactoring moved the calls into a shared helper): which
+    engine function is called for a valid pattern, with how many arguments and which extra ones (flags), and — for
+    each exception class of a finite list — whether an exception raised by the engine is swallowed (the call returns
+    False) or propagates."""
+    try:
+        import regex
+        from jsonpath_rfc9535.function_extensions.match import Match
+        from jsonpath_rfc9535.function_extensions.search import Search
+
+        names = ["fullmatch", "search", "match", "compile", "finditer", "findall", "sub", "split"]
+        saved = {n: getattr(regex, n) for n in names}
+        rows = []
+        counter = [0]
+
+        def fresh():
+            counter[0] += 1
+            return "tie%da.c" % counter[0]
+
+        try:
+            for label, fn in (("match", Match()), ("search", Search())):
+                seen = []
+
+                def make(n):
+                    def rec(*a, **kw):
+                        seen.append((n, len(a) + len(kw), [repr(x) for x in a[2:]] + [f"{k}={v!r}" for k, v in sorted(kw.items())]))
+                        return saved[n](*a, **kw)
+                    return rec
+
+                for n in names:
+                    setattr(regex, n, make(n))
+                pat = fresh()
+                fn(pat.replace(".", "x"), pat)
+                for n, argc, extra in seen:
+                    rows.append((label, "calls " + n, argc, extra))
+                swallowed = []
+                for exc in (TypeError, regex.error, ValueError, KeyError, IndexError, RecursionError, AttributeError, OverflowError):
+                    def boom(*a, _exc=exc, **kw):
+                        raise _exc("tie probe") if _exc is not regex.error else regex.error("tie probe")
+                    for n in names:
+                        setattr(regex, n, boom)
+                    try:
+                        r = fn("subject", fresh())
+                        if r is False:
+                            swallowed.append("error" if exc is regex.error else exc.__name__)
+                        else:
+                            swallowed.append("returned-" + repr(r))
+                    except BaseException:  # noqa: BLE001
+                        pass
+                rows.append((label, "swallows", len(swallowed), swallowed))
+        finally:
+            for n, f in saved.items():
+                setattr(regex, n, f)
+        return {"reCalls": rows}
+    except TieABroken:
+        raise
+    except Exception as err:  # noqa: BLE001
+        raise TieABroken(f"regex behaviour extraction failed: {err!r}") from err
 
 
 def extract_cli_behaviour():
@@ -249,21 +312,6 @@ def _name(node) -> str:
 def extract_ast():
     t = {}
     try:
-        # --- regex engine calls in match.py / search.py
-        calls = []
-        for rel in ("function_extensions/match.py", "function_extensions/search.py"):
-            tr = ast.parse(_src(rel))
-            for c in ast.walk(tr):
-                if isinstance(c, ast.Call) and _name(c.func) in ("re.fullmatch", "re.search", "re.match", "re.compile"):
-                    calls.append((rel, _name(c.func), len(c.args) + len(c.keywords),
-                                  [ast.unparse(a) for a in c.args[2:]] + [ast.unparse(k) for k in c.keywords]))
-            exc_clauses = [
-                _name(h.type) if h.type is not None else "BaseException"
-                for n in ast.walk(tr) if isinstance(n, ast.Try) for h in n.handlers
-            ]
-            calls.append((rel, "except", len(exc_clauses), exc_clauses))
-        t["reCalls"] = calls
-
         # --- attribute stores and calls into `random`, per function, for every module
         writes = []
         randoms = []
